@@ -115,11 +115,18 @@ class World:
 
     def snap_var(self, v):
         np = self.np
-        parts = [np.asarray(v._value).tobytes(), bytes([bool(v._value.modified)]), self.snap_bc(v.BCs)]
+        return b"|".join(self.snap_var_parts(v))
+
+    def snap_var_parts(self, v):
+        """(own value array and flag, BC object, cached boundary term) - the first and the last belong to the
+        variable alone, the BC object may be shared with other variables"""
+        np = self.np
+        own = np.asarray(v._value).tobytes() + bytes([bool(v._value.modified)])
+        cache = b""
         if hasattr(v, "_BCsTerm"):
             M, R = v._BCsTerm
-            parts += [M.data.tobytes(), M.indices.tobytes(), M.indptr.tobytes(), np.asarray(R).tobytes()]
-        return b"|".join(parts)
+            cache = b"|".join([M.data.tobytes(), M.indices.tobytes(), M.indptr.tobytes(), np.asarray(R).tobytes()])
+        return own, self.snap_bc(v.BCs), cache
 
     def snap_all(self):
         return {k: self.snap_var(v) for k, v in self.vars.items()}, {k: self.snap_bc(b) for k, b in self.bcs.items()}
@@ -216,6 +223,7 @@ def replay(beh, index, judge, probe=False):
         ctx = {"grid_class": W.cls}
         wit = {"grid_class": W.cls, "history": list(hist)}
         before_vars, before_bcs = W.snap_all()
+        before_parts = {k: W.snap_var_parts(v) for k, v in W.vars.items()}
         with warnings.catch_warnings(), np.errstate(all="ignore"), contextlib.redirect_stdout(io.StringIO()):
             warnings.simplefilter("ignore")
             try:
@@ -230,14 +238,21 @@ def replay(beh, index, judge, probe=False):
         # frame condition: objects the action does not name stay byte-identical
         touched = set(a for a in args if isinstance(a, str))
         after_vars, after_bcs = W.snap_all()
+        clause = "C14_OperandsKept" if name in ("Copy", "Arith") else "C15_Pure"
         for k, sb in before_vars.items():
             if k in W.vars and k not in touched and after_vars.get(k) != sb:
-                # sharing legitimately propagates BC edits / flag resets to co-users of the BC object
+                # sharing legitimately propagates BC edits / flag resets to co-users of the BC object ...
                 shares = any(W.vars[k].BCs is W.vars[t].BCs for t in touched if t in W.vars) or \
                     any(W.vars[k].BCs is W.bcs.get(t) for t in touched)
                 if not shares:
-                    judge.bad("C15_Pure" if name == "Build" else "C14_OperandsKept",
-                              dict(ctx, action=name, what="unrelated variable modified"), wit)
+                    judge.bad(clause, dict(ctx, action=name, what="unrelated variable modified"), wit)
+                else:
+                    # ... but never its own value array or its own cached boundary term
+                    own0, _, cache0 = before_parts.get(k, (None, None, None))
+                    own1, _, cache1 = W.snap_var_parts(W.vars[k])
+                    if own0 is not None and (own0 != own1 or cache0 != cache1):
+                        judge.bad(clause, dict(ctx, action=name,
+                                               what="value or cached boundary term of a co-user of the BC object modified"), wit)
         compare_projection(W, rec, judge, ctx, wit, name)
     if probe and beh:
         probe_solve(W, beh[-1], judge, hist)
